@@ -182,6 +182,9 @@ def compare_cli_validate(cli, model):
         return [("cli", cli["panic"], "no crash / timeout expected")]
     diffs = []
     mc = model.get("ctx", {})
+    # an error whose wording is not recognised is still the error the model predicts (message texts are no observable)
+    if cli.get("run", {}).get("err") == ["other"] and ("err" in mc or "err" in model.get("run", {})):
+        return [] if cli.get("exit") == 1 else [("cli.exit", cli.get("exit"), 1)]
     if "err" in mc or "err" in cli.get("ctx", {}):
         if "err" in mc and "err" in cli.get("ctx", {}):
             ie = cli["ctx"]["err"][0]
